@@ -202,7 +202,7 @@ def plan(rng, tier):
                         continue
                 elif minor is not None and row % len(MINOR) != minor and not (mult and shape in MAIN_SHAPES):
                     continue
-                if base == "UTF8String" and shape in ("contig-top", "contig-bottom", "single") and n % 4:
+                if base == "UTF8String" and shape in ("contig-top", "contig-bottom", "single") and row % 2:
                     continue                         # not checked at all (known finding): a sample is enough
                 size = SIZES[n % len(SIZES)]
                 style = STYLES[n % len(STYLES)]
@@ -216,6 +216,9 @@ def plan(rng, tier):
         m = sorted(dom)[len(dom) // 2]
         if run_in(dom, m - 3, m + 3):
             sites.append(Site("a%d" % len(sites), base, [(m - 3, m), (m + 1, m + 3)], [(1, 3)], "ranges", "adjacent"))
+    # UTF8String alphabets reaching 0x80 and beyond: no table (max_table_size 128), nothing checked (known finding)
+    for i, runs in enumerate([[(0x61, 0x61), (0x80, 0x80)], [(0x7f, 0x7f), (0x81, 0x82)], [(0x41, 0x43), (0xff, 0xff)], [(0x70, 0x7f), (0x80, 0x8f)]]):
+        sites.append(Site("a%d" % len(sites), "UTF8String", runs, SIZES[i % 2 * 3], "ranges", "utf8-high"))
     # random alphabets: 2..5 runs anywhere in the repertoire
     nrand = 24 if tier == "quick" else 120
     bases = list(TYPES)
@@ -333,10 +336,10 @@ def alpha_module(rng, tier, name="MA0"):
     defs, cases, where = [], [], {}      # where: site id -> [(type name whose .c file holds the checker, function name regex)]
     by_id = {}
 
-    def case(tn, site, label, der, cps, text):
-        bad = judge(site, cps)
+    def case(tn, site, label, der, cps, text, odd=False):
+        bad = judge(site, cps) + (["octets"] if odd else [])
         known = "C08-utf8-from-unchecked" if (bad == ["from"] and utf8_unchecked(site)) else None
-        cases.append({"tn": tn, "sid": site.id, "label": label.split(":")[0].split("@")[0], "der": der.hex(), "units": model_units(site.kind, cps),
+        cases.append({"tn": tn, "sid": site.id, "label": label.split(":")[0].split("@")[0], "der": der.hex(), "units": None if odd else model_units(site.kind, cps),
                       "nchars": len(cps), "bad": bad, "known": known, "what": "%s [%s] %s %s" % (site.text, site.why, label, cps), "text": text})
 
     def define(tn, text):
@@ -362,6 +365,14 @@ def alpha_module(rng, tier, name="MA0"):
             for label, cps in site_values(s, rng):
                 body = b"".join(retag(prim(s, cps) if k == j else valid[k], k) for k in range(len(g)))
                 case(tn, s, label, tlv(16 * 4, True, body), cps, text[:1200])
+            if s.kind in ("2", "4"):
+                # an octet count that is not a multiple of the unit: not a string of this type at all (refused before the loop)
+                ok = [v for _l, v in site_values(s, rng, False) if not judge(s, v) and v][:1]
+                for v in ok:
+                    for extra in (1, int(s.kind) - 1):
+                        der = tlv(s.tag * 4, False, enc_units(s.kind, v) + bytes([sorted(s.set)[0]] * extra))
+                        body = b"".join(retag(der if k == j else valid[k], k) for k in range(len(g)))
+                        case(tn, s, "odd:%d" % extra, tlv(16 * 4, True, body), v, text[:1200], odd=True)
     # (2) type level + references: the sites whose top or bottom code is a multiple of 16, around 0x7f/0x80/0xff, and a share
     pick = [s for s in sites if any(x in s.why for x in ("top-single", "bottom-single", "contig-top", "hole", "random", "full"))]
     chosen, seen = [], set()
